@@ -41,6 +41,22 @@ def fnv_chain(data: bytes, depth: int):
     return [fnv1a_64(data, i) for i in range(depth)]
 
 
+def fnv_chain_key(key, depth: int):
+    """the default strategy for a KEY: bytes are folded in byte by byte; text is folded in code point by code point (so ASCII text hashes
+    like its bytes, and text beyond ASCII like nothing else)"""
+    if isinstance(key, str):
+        vals = [ord(ch) for ch in key]
+    else:
+        vals = list(bytes(key))
+    out = []
+    for i in range(depth):
+        h = (FNV64_OFFSET + 31 * i) % (1 << 64)
+        for v in vals:
+            h = ((h ^ v) * FNV64_PRIME) % (1 << 64)
+        out.append(h)
+    return out
+
+
 # published FNV-1a test vectors (Fowler/Noll/Vo reference test suite)
 FNV64_VECTORS = {b"": 0xCBF29CE484222325, b"a": 0xAF63DC4C8601EC8C, b"b": 0xAF63DF4C8601F1A5, b"c": 0xAF63DE4C8601EFF2,
                  b"foobar": 0x85944171F73967E8, b"fo": 0x08985907B541D342, b"foo": 0xDCB27518FED9D577,
